@@ -1663,6 +1663,10 @@ DEV_GROUPS = {
     'short_float_padded': ['truncated_float32'],
     'negative_blob_size_accepted': ['negative_blob_size'],
 }
+BUNDLE_LEVEL = {'truncated_bundle_header', 'truncated_element_size',
+                'negative_element_size', 'empty_element',
+                'misaligned_element_size', 'element_overruns',
+                'unidentified_content'}
 DEV2GROUP = {d: g for g, ds in DEV_GROUPS.items() for d in ds}
 DEV_PRIORITY = [d for ds in DEV_GROUPS.values() for d in ds]
 
@@ -1696,9 +1700,9 @@ def run_datagram(case, v):
     except osc_ref.OscDecodeError as e:
         ref = None
         reason = _slug(e)
-    except ValueError:
-        # e.g. a 'c' argument above 0x10FFFF: not a character, refused by
-        # the reference decoder with a bare ValueError
+    except (ValueError, OverflowError):
+        # e.g. a 'c' argument above 0x10FFFF: not a character (older
+        # versions of the reference decoder refuse it with a bare error)
         ref = None
         reason = 'bad_value'
     finally:
@@ -1796,7 +1800,7 @@ def run_datagram(case, v):
     finally:
         main.remove_osc_recv_func(spy_func)
         resp.free()
-    prefix_kept = valid is not None and data != valid and (
+    prefix_kept = (valid is None or data != valid) and (
         data.startswith(osc_ref.BUNDLE_TAG) or data.startswith(b'/'))
     if data.startswith(osc_ref.BUNDLE_TAG):
         labels.add('bundle_prefix')
@@ -2036,12 +2040,15 @@ def classify_known(stage, case, viol):
             # like unknown tags, which shifts or starves the later arguments
             skipped = bool(rd.tags_used(data) & set('hcSNI'))
 
+            # sc3 reads such a message differently from a strict reader from
+            # that point on (an optional type it does not implement is
+            # skipped without its data; non-zero padding bytes are glued to
+            # the text because get_string strips every NUL of the chunk), so
+            # every later message-level deviation is a consequence
+            shifted = skipped or 'nonzero_padding' in devs
+
             def grp(d):
-                if skipped and d.startswith('truncated_'):
-                    return 'nonconforming_message_accepted'
-                # get_string strips every NUL of the padded chunk, so
-                # non-zero padding bytes become part of the text
-                if d == 'bad_utf8' and 'nonzero_padding' in devs:
+                if shifted and d not in BUNDLE_LEVEL:
                     return 'nonconforming_message_accepted'
                 return DEV2GROUP.get(d)
             if dev in devs and all(grp(d) in known for d in devs):
